@@ -218,7 +218,7 @@ def p_terminated(it, ctx, callee, args):
 
 def load_progs():
     rt = P.parse_file(common.mir_dump("dora-runtime"), common.REPO)
-    drv = P.parse_file(common.drivers_mir_dump(), os.path.join(common.VERIF, "engines", "drivers"))
+    drv = P.parse_file(common.drivers_mir_dump(), os.path.join(common.WORK, "drivers-src"))
     for need in ("Terminator::try_terminate", "Terminator::wake_up"):
         if rt.find(need) is None:
             raise Inconclusive("%s not found in the MIR dump of dora-runtime" % need)
@@ -266,8 +266,8 @@ def run_config(rt, drv, N, budget, initial, K, tmo, deadline, qjobs=1):
 CONFIGS = {
     # (workers, budget of children, initial items in the injector, K)
     # first entry = core configuration: must be decided completely (incl. "no execution is longer than K")
-    "quick": [(2, 1, 1, 62), (2, 2, 1, 44)],
-    "thorough": [(2, 1, 1, 62), (2, 2, 1, 95), (2, 3, 1, 110), (3, 1, 1, 85), (3, 2, 1, 100)],
+    "quick": [(2, 1, 1, 52), (2, 2, 1, 40)],
+    "thorough": [(2, 1, 1, 52), (2, 2, 1, 75), (2, 3, 1, 95), (3, 1, 1, 72), (3, 2, 1, 85)],
 }
 
 
